@@ -3,6 +3,7 @@
 package xport
 
 import (
+	"bufio"
 	"bytes"
 	"errors"
 	"io"
@@ -114,11 +115,11 @@ func (e *EagerEOF) Read(p []byte) (int, error) {
 }
 
 // SegKinds is the number of segmentation kinds Segment understands.
-const SegKinds = 5
+const SegKinds = 6
 
 // Segment wraps r in one of the transport segmentations: 0 none, 1 one byte per Read, 2 the
 // drawn schedule, 3 the drawn schedule with io.EOF delivered together with the last bytes,
-// 4 unsegmented with io.EOF delivered together with the last bytes.
+// 4 unsegmented with io.EOF delivered together with the last bytes, 5 a *bufio.Reader.
 func Segment(r io.Reader, kind int, drawn []int) io.Reader {
 	switch kind {
 	case 0:
@@ -127,6 +128,14 @@ func Segment(r io.Reader, kind int, drawn []int) io.Reader {
 		return &SegReader{R: r, Sched: Sched(kind, drawn)}
 	case 3:
 		return &EagerEOF{R: &SegReader{R: r, Sched: Sched(2, drawn)}}
+	case 5:
+		// a *bufio.Reader with a small buffer (what applications commonly hand to a decoder; it also
+		// offers Peek/Discard/WriteTo, which a decoder may use as a fast path)
+		size := 512
+		if len(drawn) > 0 && drawn[0] > 1 {
+			size = 16 * drawn[0]
+		}
+		return bufio.NewReaderSize(r, size)
 	default:
 		return &EagerEOF{R: r}
 	}
